@@ -34,7 +34,8 @@ PROP_FUNCS = {
     'C13': ['find_token', 'find_token_reverse', 'try_find_line', 'try_find_line_with_date', 'getitem'],
     'C16': ['since_window', 'line_date_is_valid', 'apply_to_line'],
     'C18': ['num_parallel_tasks'],
-    'C15': ['allocations', 'allocate_next', 'add_to_store'],
+    'C15': ['allocations', 'allocate_next', 'add_to_store', 'preallocate'],
+    'C06': ['preallocate'],
     'C07': ['apply_single'],
 }
 ALL_FUNCS = [s['name'] for s in pytolean.FUNCS]
